@@ -44,6 +44,7 @@ type part struct {
 	nontrivial func(c *Case, tr *Trace) bool
 	labels     func(c *Case, tr *Trace) []string
 	exec       func(t *testing.T, c *Case) *Trace // default: sim bubble
+	expand     func(c *Case, tr *Trace) []*Case   // fault enumeration: variants derived from the base case and its run
 }
 
 type checkDef struct {
@@ -278,7 +279,15 @@ func TestCheck(t *testing.T) {
 		if *flagLog != "" {
 			logf, _ = os.OpenFile(*flagLog, os.O_CREATE|os.O_WRONLY|os.O_APPEND, 0o644)
 		}
-		prop := func(rt *rapid.T, c *Case) {
+		var prop func(rt *rapid.T, c *Case)
+		propExpand := func(rt *rapid.T, c *Case) {
+			// base run, then every derived variant
+			tr := runInBubble(t, c)
+			for _, v := range p.expand(c, tr) {
+				prop(rt, v)
+			}
+		}
+		prop = func(rt *rapid.T, c *Case) {
 			if logf != nil {
 				logf.Write(append(c.JSON(), '\n'))
 			}
@@ -364,6 +373,10 @@ func TestCheck(t *testing.T) {
 			ok := t.Run(p.name, func(t *testing.T) {
 				rapid.Check(t, func(rt *rapid.T) {
 					c := p.gen(rt)
+					if p.expand != nil {
+						propExpand(rt, c)
+						return
+					}
 					prop(rt, c)
 				})
 			})
@@ -635,6 +648,14 @@ func init() {
 		{name: "c03", gen: genC03, monitors: []Monitor{monC03}, labels: labelsC03, nontrivial: ntC03, quick: 1500, thorough: 40000},
 	},
 		rule: "1-4 bystander RPCs (mixed shapes, sizes up to 150 KB) plus one disturber of a drawn kind (handler error, unknown/malformed/empty method, started after shutdown, cancelled, expired, caller or handler that never reads while its peer sends 2-8 windows, request metadata / method name / response header / trailer that cannot be encoded), interleaved by the tape; metamorphic oracle: every bystander completes exactly as it would without the disturber, the tunnel is still up and a fresh probe RPC succeeds, and with flow control negotiated bystanders are complete at the drained point before stalled consumers are released; non-trivial = the disturber's first frame lies strictly between bystander frames, or a never-reading disturber actually exhausted a window"})
+}
+
+func init() {
+	register(&checkDef{prop: "C04", level: "fault_enumeration", parts: []part{
+		{name: "c04", gen: genC04, monitors: []Monitor{monC04}, labels: labelsC04, nontrivial: ntC04, quick: 1000, thorough: 20000},
+		{name: "c04_sweep", gen: genC04Base, expand: expandC04, monitors: []Monitor{monC04}, labels: labelsC04, nontrivial: ntC04, quick: 2, thorough: 40},
+	},
+		rule: "part c04: mixed workloads (1-6 RPCs, all shapes, stalled consumers, handlers that run until cancelled, callers blocked in Header) with one termination cause (Close on either end, cancel/expiry of the opening context, Stop, carrier break at client end / server end / both) at a drawn frame boundary k; part c04_sweep: for each sampled workload the fault-free run is counted and EVERY cause is injected at EVERY delivered-frame boundary k in [0, F]; oracle: invariants of the final drained state (Done closed, Err nil iff clean, serving calls returned, every op returned, in-flight calls non-OK, handler contexts done, later RPC fails at once); non-trivial = at least one RPC was in flight when the fault struck"})
 }
 
 var _ = strings.Join
